@@ -765,7 +765,7 @@ C20_OPTS = {
     "http-seed": ["http://h1/z"],
     "private": True,
     "source": "Tracker #1",
-    "comment": "Season 2 disc #14 ; second = pressing: 100% [x]",
+    "comment": "Season 2 disc #14 ; second = pressing: 100 [x]",
     "piece-length": "15",
     "align": True,
 }
